@@ -130,9 +130,9 @@ def lockstep(item):
                 bad.append({'step': r, 'why': 'exception %s: %s' % (type(e).__name__, str(e)[:100])})
                 continue
             done += 1
-            rows = [[k, num.get(x, x)] for k, x in o['items']]
-            links = sorted([num.get(k, k), 'c' if v[0] == 'tree-c' else 'e'] for k, v in o['links'].items())
-            state = sorted(num.get(x, x) for x in o['state'] if x != nodes[0].uid)
+            rows = [[k, num.get(x, -1)] for k, x in o['items']]
+            links = sorted([num.get(k, -1), 'c' if v[0] == 'tree-c' else 'e'] for k, v in o['links'].items())
+            state = sorted(num.get(x, -1) for x in o['state'] if x != nodes[0].uid)
             why = []
             if rows != r['rows']:
                 why.append('rows %s expected %s' % (rows, r['rows']))
